@@ -504,6 +504,17 @@ Proof.
   - intros He. eapply Hc1; eauto.
 Qed.
 
+Theorem depth_bound_runs :
+  forall prog sched t x, gett (srun (init prog) sched) t = Some x ->
+    Z.of_nat (length (working_depths (frames x))) <= DEPTH_CAP /\
+    Z.of_nat (length (depths (frames x))) <= DEPTH_CAP + 1 /\
+    decreasing (depths (frames x)) /\
+    (forall f d, In f (frames x) -> disp_depth f = Some d -> 0 <= d <= DEPTH_CAP /\ (entered f = false -> d < DEPTH_CAP)).
+Proof. exact C07_model. Qed.
+
+Theorem depth_cap_value : DEPTH_CAP = 1024.
+Proof. reflexivity. Qed.
+
 (* a frame standing at the cap does not recurse: it defers the object and returns *)
 Theorem enter_at_cap_defers s t rec x o d k :
   gett s t = Some x -> frames x = FDispEnter o d :: k -> DEPTH_CAP <= d ->
